@@ -613,6 +613,10 @@ func (p *Parser) parseSwitch() ast.Node {
 	var defaultCaseCount int
 	// Each time through this loop we process one case statement
 	for !p.curTokenIs(token.RBRACE) {
+		// Once an error has been recorded the parser no longer advances
+		if p.err != nil {
+			return nil
+		}
 		if p.curTokenIs(token.EOF) {
 			p.setTokenError(p.prevToken, "unterminated switch statement")
 			return nil
@@ -630,8 +634,14 @@ func (p *Parser) parseSwitch() ast.Node {
 			p.nextToken() // move to the token following "case"
 			caseExprs = append(caseExprs, p.parseExpression(LOWEST))
 			for p.peekTokenIs(token.COMMA) {
-				p.nextToken() // move to the comma
-				p.nextToken() // move to the following expression
+				// The parser does not advance once an error has been recorded,
+				// so stop here instead of looking at the same comma forever
+				if err := p.nextToken(); err != nil { // move to the comma
+					return nil
+				}
+				if err := p.nextToken(); err != nil { // move to the following expression
+					return nil
+				}
 				caseExprs = append(caseExprs, p.parseExpression(LOWEST))
 			}
 		} else {
